@@ -130,6 +130,20 @@ def run_case(case):
                 ok, why = oracles.close(a2, a1, 1e-7, 1e-9 * float(total))
                 if not ok:
                     out.fail('mismatch:spelling:estimate', 'iters=1 models differ between spellings on %s: %s' % (m.proj, why)); break
+    # (c') the loss the optimiser reports is the loss of the model it returns (third observation point)
+    if out.ok and metric == 'L2':
+        for it in (1, 3):
+            e3 = mbi.FactoredInference(domain, metric='L2', iters=it)
+            with_tiny = [(q, y, nz * (1e-5 if case['point_seed'] % 4 == 0 else 1.0), pr) for q, y, nz, pr in [m.tuple for m in meas]]
+            rep = e3.mirror_descent(e3.fix_measurements(with_tiny), total)
+            rec = 0.0
+            for (q, y, nz, pr), m in zip(with_tiny, meas):
+                x = np.asarray(e3.model.project(tuple(m.proj)).values, dtype=float).flatten()
+                r = (m.Qd @ x - y) / nz
+                rec += 0.5 * float(r @ r)
+            if rep is not None and abs(rep - rec) > 1e-6 * abs(rec) + floor / min(1.0, min(nz for _, _, nz, _ in with_tiny)) ** 2:
+                out.fail('mismatch:reported_loss', 'mirror_descent(iters=%d) reports loss %r, the returned model has loss %r' % (it, rep, rec)); break
+        if case['point_seed'] % 4 == 0: out.classes.append('tiny_noise_md')
     # (d) smoothness constant
     if out.ok and metric == 'L2':
         small = [n for n in (m.Qd.shape[1] for m in meas)]
